@@ -103,6 +103,19 @@ class ParquetFile:
         for fid, nm in ((1, 'version'), (2, 'schema'), (3, 'num_rows'), (4, 'row_groups')):
             if not fhas(tree, fid):
                 raise ParquetError('FileMetaData.%s missing' % nm)
+        # a field id carrying another wire type is not that field (and a strict reader refuses the footer)
+        for fid, nm, wt in ((1, 'version', 5), (2, 'schema', 9), (3, 'num_rows', 6), (4, 'row_groups', 9)):
+            got = [t for f2, t, v in tree if f2 == fid]
+            if got and got[0] != wt:
+                raise ParquetError('FileMetaData.%s has wire type %d, expected %d' % (nm, got[0], wt))
+        try:
+            self._interpret(tree)
+        except ParquetError:
+            raise
+        except (TypeError, ValueError, IndexError, KeyError, AttributeError) as e:
+            raise ParquetError('footer: field of unexpected type or shape (%s: %s)' % (type(e).__name__, e))
+
+    def _interpret(self, tree):
         self.version = fget(tree, 1)
         self.num_rows = fget(tree, 3)
         self.created_by = fget(tree, 6)
